@@ -22,7 +22,9 @@ def make_module(it, modname):
         return ModuleNS("math", {"inf": INF})
     if modname == "json":
         return ModuleNS("json", {})
-    if modname in ("csv", "pickle", "random", "sys", "codecs", "statistics", "collections", "datetime", "warnings"):
+    if modname == "datetime":
+        return ModuleNS("datetime", {"date": TypeObj("date"), "datetime": TypeObj("datetime"), "timedelta": TypeObj("timedelta")})
+    if modname in ("csv", "pickle", "random", "sys", "codecs", "statistics", "collections", "warnings"):
         return ModuleNS(modname, {"filterwarnings": ModelFn("warnings.filterwarnings", lambda i, a, k: None)})
     raise Unsupported(f"module {modname}")
 
